@@ -87,8 +87,17 @@ def default_of(t):
 def build(model):
     uid = model["uid"]
     modname = f"c06_model_{uid}"
+    enum_lines = [f"class {model['enum']}(enum.Enum):", "    A = 'a'", "    B = 'b'", ""]
     lines = ["from __future__ import annotations", "import enum", "from dataclasses import dataclass, field", "from datetime import datetime",
-             "from typing_extensions import Optional, List, Type", "", f"class {model['enum']}(enum.Enum):", "    A = 'a'", "    B = 'b'", ""]
+             "from typing_extensions import Optional, List, Type", ""]
+    if sum(map(ord, str(uid))) % 2:
+        # the vocabulary lives in a module of its own (no mapped class next to it)
+        with open(os.path.join(TMP, f"c06_vocabulary_{uid}.py"), "w") as f:
+            f.write("import enum\n\n\n" + "\n".join(enum_lines) + "\n")
+        lines.append(f"from c06_vocabulary_{uid} import {model['enum']}")
+        lines.append("")
+    else:
+        lines += enum_lines
     for c in model["classes"]:
         lines.append("@dataclass(kw_only=True, eq=False)")
         lines.append(f"class {c['name']}" + (f"({c['base']})" if c["base"] else "") + ":")
